@@ -267,20 +267,9 @@ func errorPropagated(fn *ssa.Function, after ssa.Instruction, r ssa.Value) (bool
 	return bad == nil, bad
 }
 
-func storeSites(c *Ctx) []ssa.CallInstruction {
-	var out []ssa.CallInstruction
-	for _, fn := range c.P.Funcs {
-		if fn.Pkg.Pkg.Path() != ir.MastPath {
-			continue
-		}
-		for _, ci := range CallsOf(fn) {
-			if c.Facts.External(ci) == "Persist.Store" {
-				out = append(out, ci)
-			}
-		}
-	}
-	return out
-}
+// storeSites: the places of package mast that hand a name and bytes to Persist.Store. A pure pass-through wrapper
+// (a delegating Persist in the root package) is not one: its callers are (own_util.go).
+func storeSites(c *Ctx) []ssa.CallInstruction { return writerStoreSites(c) }
 
 func runERRPROPFlush(c *Ctx) {
 	P := c.P
